@@ -130,6 +130,31 @@ EXPLANATION += ("  Sample classes: private_parameters_dict / shared_parameters_d
                 "as_arr / as_num, list(d.items()), np.array, zip, dict, and for equals: print ignored, isinstance tests, !=, np.array_equal, dispatch).  The roundtrip "
                 "cases of the correspondence run the real methods (including from_dicts on dicts read back from HDF5 in another entry order) bit for bit. ")
 
+# ---- wave 6 of the source link: ThetaHolder.__iter__, Metric.evaluate_all, BayesianModel.__init__, Metric.__init__ (Generated/SrcCoreSmall.v, SrcInits.v) ----
+THEOREMS.update({
+    "C10_model_is_source_iter": "the translated generator ThetaHolder.__iter__ (the list it yields) = the stored samples in their order",
+    "C10_model_is_source_evaluate_all": "the translated Metric.evaluate_all = the abstract evaluate (ANY function that may raise) mapped over the holder's stored samples in order, first exception aborting; iterating the holder runs the translated __iter__",
+    "C10_model_is_source_bayesian_model_init": "the translated BayesianModel.__init__ stores experiment_space (an opaque value)",
+    "C10_model_is_source_metric_init": "the translated Metric.__init__ stores model (an opaque value)",
+    "C10_model_is_source_tracker_init": "the translated SimulationTracker.__init__ stores its three arguments, whatever the instance held before",
+    "C10_model_is_source_tracker_save": "the translated SimulationTracker.save writes ONE JSON object: the instance dict = the three attributes under their names in __init__'s order",
+    "C10_model_is_source_tracker_save_load": "translated load of what the translated save wrote = the tracker, for every fresh instance cls.__new__ may make",
+    "C10_model_is_source_tracker_load_any_order": "the translated load binds the file's keys by name (cls(**data)): any key order gives the same object",
+    "C10_model_is_source_tracker_load_refuses": "the translated load refuses an empty file (95) and an object with a foreign key or a missing one (TypeError of cls(**data), 93)",
+})
+EXPLANATION += ("  SMALL FUNCTIONS of core.py: ThetaHolder.__iter__ (py2gal `generator`: a generator function denotes the list it yields; laziness is not "
+                "represented), Metric.evaluate_all (primitives: `for x in results_holder` = the translated __iter__ of the holder; self.evaluate = ANY "
+                "function `ev` that may raise; np.array(list) = the same values), BayesianModel.__init__ and Metric.__init__ (no primitive) are "
+                "re-translated on every run (LS_HOLDER_ITER / LS_METRIC_EVALUATE_ALL -> Generated/SrcCoreSmall.v, LS_INIT_* -> Generated/SrcInits.v).  "
+                "Metric and BayesianModel.__init__ are not called by any code of src/batchie (no subclass calls super().__init__(experiment_space)): "
+                "these two links cover dead code.  SimulationTracker.__init__ / save / load (LS_TRACKER_* -> Generated/SrcTracker.v; vocabulary Model/Tracker.v; "
+                "also unused by src/batchie): J = a JSON-native value, the object = the triple of its attributes (typed fields), the file = None or "
+                "Some (the object it holds).  Trusted, ONE call each: open(fn, 'w') = a new empty file, open(fn, 'r') = what the file holds, "
+                "self.__dict__ = the three attributes by name in __init__'s order, json.dump(d, f) = the file then holds d (a second document: 95), "
+                "json.load(f) = the object the file holds (empty file: 95); `cls(**data)` is the translator's keyword call with ** unpacking "
+                "(PyRt.sdict_only / sdict_read: TypeError = 93 unless the keys are exactly the parameters) running the translated __init__.  The "
+                "extra check `SimulationTracker: ...` evaluates exactly these meanings on the real class and a real file.")
+
 _NAN1 = struct.unpack("<d", struct.pack("<Q", 0x7FF8000000000123))[0]
 _NAN2 = struct.unpack("<d", struct.pack("<Q", 0xFFF0000000000001))[0]
 SPECIALS = [0.0, -0.0, 5e-324, -5e-324, 2.225073858507201e-308, 2.2250738585072014e-308, 1e-320,
@@ -842,4 +867,35 @@ def extra(tier):
     res.append(("predicate detects a lexicographic load order (12 samples) and accepts 10", ok, "n=12: %r; n=10: %r" % (p12, p10)))
     clean = _run_roundtrip(d12)["pred"]
     res.append(("the same case passes on the real load_h5", clean is None, repr(clean)))
+    res.append(_tracker_primitives())
     return res
+
+
+def _tracker_primitives():
+    """the meanings the SimulationTracker link gives its primitives, on the real class: the instance dict is the three attributes in
+    __init__'s order, json.dump / json.load of it round-trip, load binds by name and refuses other key sets with a TypeError"""
+    import json
+    import shutil
+    import tempfile
+    from batchie.core import SimulationTracker
+    d = tempfile.mkdtemp(dir=common.WORK)
+    try:
+        t = SimulationTracker(plate_ids_selected=[[0], [3, 1]], losses=[0.5, 0.1 + 0.2, 1e300], seed=12)
+        ok = list(t.__dict__.items()) == [("plate_ids_selected", [[0], [3, 1]]), ("losses", [0.5, 0.1 + 0.2, 1e300]), ("seed", 12)]
+        fn = os.path.join(d, "t.json")
+        t.save(fn)
+        ok = ok and json.load(open(fn)) == t.__dict__ and SimulationTracker.load(fn).__dict__ == t.__dict__
+        json.dump({"seed": 1, "losses": [], "plate_ids_selected": []}, open(fn, "w"))
+        ok = ok and SimulationTracker.load(fn).__dict__ == {"plate_ids_selected": [], "losses": [], "seed": 1}
+        refused = []
+        for bad in ({"seed": 1, "extra": 2}, {"seed": 1, "losses": []}):
+            json.dump(bad, open(fn, "w"))
+            r = impl_call(SimulationTracker.load, fn)
+            refused.append(isinstance(r, ImplError) and r.cls == "TypeError")
+        open(fn, "w").close()
+        r = impl_call(SimulationTracker.load, fn)
+        refused.append(isinstance(r, ImplError))
+        return ("SimulationTracker: instance dict, JSON round trip, binding by name, refusals as the link's primitives say", ok and all(refused),
+                "ok=%r refused=%r" % (ok, refused))
+    finally:
+        shutil.rmtree(d, ignore_errors=True)
